@@ -56,7 +56,7 @@ func (m *Matrix) C18aCases(thorough bool) (cases []Case, refs []int, skipped int
 		for _, a := range e.Archs {
 			modes = append(modes, mode{"emu", "", a})
 		}
-		if thorough && e.Timing != nil {
+		if (thorough || e.Synthetic) && e.Timing != nil {
 			a := "gcn3"
 			if e.Timing.GPU == "mi300a" {
 				a = "cdna3"
